@@ -191,6 +191,23 @@ func nf5Main(args mon.Args) {
 		g := mon.NewRNG(run.Seed, "nf5cnt", c)
 		one(g, wire.GenNf5(g, 5, c, 0), fmt.Sprintf("v5 count=%d", c), false)
 	}
+	// the whole 16-bit count field: every value x datagrams that carry 0, 1, 2, 7 and 30 complete records (a count
+	// outside 1..30, or one the datagram cannot back, yields no flows - whatever count x 48 comes to in 16 bits)
+	mon.ParallelFor(65536/256, func(bi int) {
+		g := mon.NewRNG(run.Seed, "nf5allcounts", bi)
+		for c := bi * 256; c < bi*256+256; c++ {
+			for _, recs := range []int{0, 1, 2, 7, 30} {
+				b := wire.GenNf5(g, 5, recs, 0)
+				if len(b) < 24+48*recs {
+					continue
+				}
+				b = append([]byte{}, b[:24+48*recs]...)
+				b[2], b[3] = byte(c>>8), byte(c)
+				one(g, b, fmt.Sprintf("v5 count field %d over %d records", c, recs), false)
+			}
+		}
+	})
+	run.Add("count_field_values_swept", 65536)
 	// every field position: one field differs from an all-zero / all-ones record (swap visibility)
 	for cnt := 1; cnt <= 30; cnt += 29 {
 		for off := 0; off < 24+48*cnt; off++ {
@@ -232,7 +249,7 @@ func nf5Main(args mon.Args) {
 			}
 		}
 	}
-	run.SetRule("complete grid: header count 0..40 × datagram length 24+48·count−49..+49 (short, exact, trailing octets) with random contents; versions 0..10 × counts 0..31; count-field extremes; every octet position distinguished in otherwise uniform packets (field swaps visible); seeded random valid packets. Expectation parsed from the octets by the harness (fixed v5 offsets); decoded struct fields and the parsed JSON (numbers exact, three addresses dotted) compared. distinct = (version,count,length-delta / distinguished octet) descriptor of packets that announce version 5")
+	run.SetRule("complete grid: header count 0..40 × datagram length 24+48·count−49..+49 (short, exact, trailing octets) with random contents; versions 0..10 × counts 0..31; count-field extremes and every one of the 65536 count values over datagrams with 0/1/2/7/30 records; every octet position distinguished in otherwise uniform packets (field swaps visible); seeded random valid packets. Expectation parsed from the octets by the harness (fixed v5 offsets); decoded struct fields and the parsed JSON (numbers exact, three addresses dotted) compared. distinct = (version,count,length-delta / distinguished octet) descriptor of packets that announce version 5")
 	run.Assume("JSON member names of the v5 message are the published format and are taken as given")
 	run.Finish()
 }
